@@ -415,6 +415,11 @@ def judge(case, im, mo):
 # evaluation of case lists (runs in pool workers)
 # ------------------------------------------------------------------------------------------
 
+def _ckey(c):
+    k = lib.canon(c)
+    return (len(k), k)
+
+
 def evaluate(cases, enc_shift=0, both_enc=False):
     lines = [line_of(c) for c in cases]
     mout = lib.run_model("C17", lines)
@@ -432,7 +437,7 @@ def evaluate(cases, enc_shift=0, both_enc=False):
             res["dist"][c[0] + ":" + dist] += 1
             if nontriv:
                 nt.setdefault(c[0], set()).add(hash(lib.canon(c)))
-            if dist == "T1-literal-differs" and (res["t1"] is None or len(lib.canon(c)) < len(lib.canon(res["t1"][0]))):
+            if dist == "T1-literal-differs" and (res["t1"] is None or _ckey(c) < _ckey(res["t1"][0])):
                 res["t1"] = (c, im, mo)
             if c[0] == "sbt":
                 res["sbt"].append((c, im, mo))
@@ -494,7 +499,7 @@ def merge(acc, r):
             if (len(lib.canon(x[2])), lib.canon(x[2])) < (len(lib.canon(worst[2])), lib.canon(worst[2])):
                 acc["findings"].remove(worst)
                 acc["findings"].append(x)
-    if r["t1"] is not None and (acc["t1"] is None or len(lib.canon(r["t1"][0])) < len(lib.canon(acc["t1"][0]))):
+    if r["t1"] is not None and (acc["t1"] is None or _ckey(r["t1"][0]) < _ckey(acc["t1"][0])):
         acc["t1"] = r["t1"]
     acc["sbt"] += r["sbt"]
     acc["samples"] += r["samples"][:1]
@@ -736,13 +741,15 @@ def run(ctx):
     ctx.coverage["rule"] = (
         "Three-way comparison (real strax / extracted two-pointer model / extracted quadratic spec) per call. "
         "Exhaustive pairs: every start-sorted list of <=3 things x every start-sorted list of <=2 containers on a "
-        "4-point grid with lengths 0..2 (thorough: <=4 things x <=2 containers and <=3 x <=3 on a 5-point grid), for "
+        "4-point grid with lengths 0..2 (thorough: <=4 x <=2 and <=3 x <=3 on the 4-point grid, <=3 x <=2 on a "
+        "5-point grid), for "
         "fully_contained_in, abs_time_to_prev_next_interval and touching_windows (quick: three of the six windows "
         "-2..3 per pair, alternating (-2,0,2)/(-1,1,3); thorough: all six per pair) "
         "(split_by_containment / split_touching_windows on every 7th pair); a seeded random sample of the stated "
         "scope (<=4 things x <=3 containers, 6-point grid, lengths 0..3) and of larger arrays (<=60 x <=20, "
         "clustered overlaps, shared endpoints, zero gaps, zero lengths); a malformed stream (every unsorted / "
-        "negative-length list of <=3 x <=2 intervals on a 3-point grid, plus mutated random arrays) for the "
+        "negative-length list of <=2 x <=2 and <=3 x <=1 intervals on a 3-point grid with lengths -1, 0, 2 "
+        "(thorough: <=3 x <=2), plus mutated random arrays) for the "
         "rejection verdicts; both endtime encodings alternate (random cases run in both). Non-trivial = the "
         "per-unit rule in harness/props/c17.py:judge (e.g. containment: both arrays non-empty and some thing "
         "starts within the span of the containers; malformed: a checked precondition is violated); distinct by "
@@ -751,7 +758,7 @@ def run(ctx):
 
     # --- A. exhaustive pairs -------------------------------------------------------------
     if thorough:
-        scopes = [("A1", 4, 2, 5, 2, 7), ("A2", 3, 3, 5, 2, 7)]
+        scopes = [("A1", 4, 2, 4, 2, 7), ("A2", 3, 3, 4, 2, 7), ("A3", 3, 2, 5, 2, 7)]
     elif big:
         scopes = [("A1", 3, 2, 5, 2, 7)]
     else:
@@ -764,13 +771,25 @@ def run(ctx):
 
     # --- B. malformed exhaustive (unsorted, negative lengths) ------------------------------
     cells = [(t, t + ln) for t in range(3) for ln in (-1, 0, 2)]
-    TH = list(all_row_lists(3, cells))
-    CS = list(all_row_lists(2, cells))
-    _G["B"] = (TH, CS, 11, {"fc": 1, "atp": 1, "tw": (0,), "sbc": 1, "stw": 1}, True)
-    tasks += [(_pair_task, ("B", a, b)) for a, b in chunks(len(TH), nproc * 2)]
+    bunits = {"fc": 1, "atp": 1, "tw": (0,), "sbc": 1, "stw": 1}
+    if big:
+        bscopes = [("B", 3, 2)]
+    else:
+        bscopes = [("B1", 2, 2), ("B2", 3, 1)]
+    for name, nth, nc in bscopes:
+        TH = list(all_row_lists(nth, cells))
+        CS = list(all_row_lists(nc, cells))
+        _G[name] = (TH, CS, 11, bunits, True)
+        tasks += [(_pair_task, (name, a, b)) for a, b in chunks(len(TH), nproc)]
 
     # --- C. random: stated scope, larger arrays, mutated ----------------------------------
     cases = []
+    corpus = os.path.join(lib.VERIF, "corpus", "C17", "seeds.json")
+    if os.path.exists(corpus):
+        import json
+        seeds = [case_from_json(o) for o in json.load(open(corpus))["cases"]]
+        cases += seeds
+        ctx.coverage["corpus_cases"] = len(seeds)
     n_scope = 60000 if thorough else 6000
     cells6 = [(t, t + ln) for t in range(6) for ln in range(4)]
     for k in range(n_scope):
@@ -898,11 +917,12 @@ def run(ctx):
         ctx.sample({"unit": UNIT_NAMES[c[0]], "case": case_json(c, "endtime")["args"], "model|spec": mo})
 
     # --- kernel cross-check of the extraction ------------------------------------------------
-    pool_cases = [c for c in _G["C"] if c[0] in ("fc", "sbc", "tw", "atp", "oi", "diff", "fb", "sbt")
+    cand = _G["C"] if len(_G["C"]) <= 6000 else [_G["C"][i] for i in sorted(rng.sample(range(len(_G["C"])), 6000))]
+    pool_cases = [c for c in cand if c[0] in ("fc", "sbc", "tw", "atp", "oi", "diff", "fb", "sbt")
                   and all(not isinstance(a, list) or len(a) <= 12 for a in c[1:])
                   and all(abs(x) < 2 ** 40 for a in c[1:] if isinstance(a, list) for r in a
                           for x in (r if isinstance(r, tuple) else (r,)))]
-    idxs = sorted(rng.sample(range(len(pool_cases)), min(240, len(pool_cases))))
+    idxs = sorted(rng.sample(range(len(pool_cases)), min(240 if thorough else 120, len(pool_cases))))
     sel = [pool_cases[i] for i in idxs]
     mouts = lib.run_model("C17", [line_of(c) for c in sel])
     eqs = [e for e in (coq_equation(c, mo) for c, mo in zip(sel, mouts)) if e]
